@@ -752,4 +752,267 @@ Proof.
         apply slots_In in He. rewrite Hk in He. fold f in He. destruct He as [_ He]. congruence.
 Qed.
 
+(* ---------------------------------------------------------------- get, distinct keys *)
+
+Lemma nodup_children n lvl fs cs :
+  (forall lvl' d, inv n lvl' d -> NoDup (map fst (bindings d))) ->
+  Forall2 (child_ok n lvl) fs cs -> NoDup fs -> NoDup (map fst (flat_map bindings cs)).
+Proof.
+  intros IHn. induction 1 as [|f c fs cs [Hc Hck] HF IH]; intros Hnd; cbn [flat_map map]; [constructor|].
+  inversion Hnd as [|x l Hnotin Hnd']; subst.
+  rewrite map_app. apply NoDup_app_intro; [now apply (IHn (S lvl))|now apply IH|].
+  intros x Hx Hx'. apply in_map_iff in Hx. destruct Hx as (e & <- & He).
+  apply in_map_iff in Hx'. destruct Hx' as (e' & Ee & He').
+  apply (children_frag _ _ _ _ _ HF) in He'. rewrite Ee, (Hck e He) in He'. contradiction.
+Qed.
+
+(* all keys stored in a well-formed dict are pairwise distinct *)
+Lemma nodup_bindings n : forall lvl d, inv n lvl d -> NoDup (map fst (bindings d)).
+Proof.
+  induction n as [|n IH]; intros lvl d Hinv; destruct d as [|h k v|h es|bm cs];
+    try (now apply inv_not_empty in Hinv);
+    try (cbn [bindings map fst]; constructor; [intros []|constructor]);
+    try (apply inv_coll in Hinv; cbn [bindings]; tauto).
+  - cbn [inv] in Hinv. contradiction.
+  - apply inv_node in Hinv. destruct Hinv as [[_ HF] _]. rewrite bindings_node.
+    apply (nodup_children n lvl (slots bm) cs IH HF (slots_NoDup bm)).
+Qed.
+
+Lemma get_ok n : forall lvl fuel d k, (n < fuel)%nat -> inv n lvl d ->
+  get_aux key val key_eqb fuel d k (hash k) (5 * Z.of_nat lvl) = Some (abs d k).
+Proof.
+  induction n as [|n IH]; intros lvl fuel d k Hfuel Hinv; (destruct fuel as [|fuel]; [lia|]);
+    destruct d as [|h k' v|h es|bm cs];
+    try (now apply inv_not_empty in Hinv); try reflexivity.
+  - cbn [inv] in Hinv. contradiction.
+  - apply inv_node in Hinv. destruct Hinv as [[Hbm HF] Hcanon].
+    cbn [get_aux]. rewrite bit_of_frag, bit_test.
+    pose proof (frag_lt (hash k) lvl) as Hf. set (f := frag (hash k) lvl) in *.
+    pose proof (node_split n lvl bm cs f Hf HF) as Hsplit.
+    destruct (tb bm f) eqn:Etb; cbn [negb].
+    + rewrite slot_index_lo, shift_succ.
+      destruct Hsplit as (clo & c & chi & -> & Hlen & Hlo & [Hc Hck] & Hhi).
+      rewrite <- Hlen, child_at_app, (IH (S lvl) fuel c k) by (lia || assumption).
+      f_equal. unfold abs. rewrite bindings_node, flat_map_bindings_app. cbn [flat_map].
+      rewrite assoc_app, (assoc_none (flat_map bindings clo)).
+      * rewrite assoc_app. destruct (assoc (bindings c) k); [reflexivity|].
+        symmetry. apply assoc_none. intros Hin. apply in_map_iff in Hin. destruct Hin as (e & Ee & He).
+        eapply sib_hi; eassumption || reflexivity.
+      * intros Hin. apply in_map_iff in Hin. destruct Hin as (e & Ee & He).
+        eapply sib_lo; eassumption || reflexivity.
+    + f_equal. symmetry. unfold abs. apply assoc_none. intros Hin.
+      apply in_map_iff in Hin. destruct Hin as (e & Ee & He). rewrite bindings_node in He.
+      apply (children_frag _ _ _ _ _ HF) in He. apply slots_In in He. rewrite Ee in He. fold f in He.
+      destruct He as [_ He]. congruence.
+Qed.
+
+(* ---------------------------------------------------------------- the exported functions *)
+
+Notation dget := (d_get key val key_eqb hash).
+Notation dput := (d_put key val key_eqb hash).
+Notation dremove := (d_remove key val key_eqb hash).
+Notation dhas := (d_has key val key_eqb hash).
+Notation dentries := (d_entries key val).
+Notation dcount := (d_count key val).
+Notation dkeys := (d_keys key val).
+Notation dvalues := (d_values key val).
+Notation diter := (d_iter key val).
+Notation dfrom := (d_from key val key_eqb hash).
+Notation dmerge := (d_merge key val key_eqb hash).
+
+Lemma Inv_empty : Inv (d_new key val).
+Proof. now left. Qed.
+
+Lemma Inv_nodup d : Inv d -> NoDup (map fst (bindings d)).
+Proof. intros [->|H]; [constructor|now apply (nodup_bindings 7 0)]. Qed.
+
+Lemma agree_0 h1 h2 : agree 0 h1 h2.
+Proof. intros j Hj. lia. Qed.
+
+Theorem put_correct d k v : Inv d ->
+  exists d', dput d k v = Some d' /\ Inv d' /\ forall k', abs d' k' = upd (abs d) k v k'.
+Proof.
+  intros HI. pose proof (Inv_nodup d HI) as Hnd. destruct HI as [->|Hinv].
+  - exists (Leaf (hash k) k v). split; [reflexivity|]. split; [right; now apply inv_leaf|].
+    apply assoc_put_law; [constructor|cbn [bindings map fst]; constructor; [intros []|constructor]|].
+    intros e. cbn [bindings In]. intuition.
+  - destruct (put_ok 7 0 FUEL d k v) as (d' & Hput & Hinv' & Hpost & _);
+      [reflexivity|unfold FUEL; lia|exact Hinv|intros e _; apply agree_0|].
+    exists d'. split; [exact Hput|]. split; [now right|].
+    apply assoc_put_law; [exact Hnd|now apply (nodup_bindings 7 0)|exact Hpost].
+Qed.
+
+Theorem remove_correct d k : Inv d ->
+  exists d', dremove d k = Some d' /\ Inv d' /\ forall k', abs d' k' = del (abs d) k k'.
+Proof.
+  intros HI. pose proof (Inv_nodup d HI) as Hnd. destruct HI as [->|Hinv].
+  - exists Empty. split; [reflexivity|]. split; [now left|].
+    intros k'. unfold del, abs, assoc. cbn [bindings bucket_get]. now destruct (key_eqb k' k).
+  - destruct (remove_ok 7 0 FUEL d k) as (d' & Hrem & Hinv' & Hpost); [unfold FUEL; lia|exact Hinv|].
+    exists d'. split; [exact Hrem|]. split; [exact Hinv'|].
+    apply assoc_remove_law; [exact Hnd|now apply Inv_nodup|exact Hpost].
+Qed.
+
+Theorem get_correct d k : Inv d -> dget d k = Some (abs d k).
+Proof.
+  intros [->|Hinv]; [reflexivity|]. apply (get_ok 7 0 FUEL d k); [unfold FUEL; lia|exact Hinv].
+Qed.
+
+Theorem has_correct d k : Inv d ->
+  dhas d k = Some (match abs d k with Some _ => true | None => false end).
+Proof. intros HI. unfold d_has. now rewrite get_correct. Qed.
+
+(* ---------------------------------------------------------------- entries, count, keys, values *)
+
+Fixpoint wsize (l : list dict) : nat :=
+  match l with [] => O | c :: t => (dsize key val c + wsize t)%nat end.
+
+Lemma dsize_node bm cs : dsize key val (Node bm cs) = S (wsize cs).
+Proof. reflexivity. Qed.
+
+Lemma wsize_app l1 l2 : wsize (l1 ++ l2) = (wsize l1 + wsize l2)%nat.
+Proof. induction l1 as [|c t IH]; cbn [app wsize]; [reflexivity|]. rewrite IH. lia. Qed.
+
+Lemma wsize_rev l : wsize (rev l) = wsize l.
+Proof. induction l as [|c t IH]; cbn [rev wsize]; [reflexivity|]. rewrite wsize_app, IH. cbn [wsize]. lia. Qed.
+
+Lemma dsize_pos d : (0 < dsize key val d)%nat.
+Proof. destruct d; cbn [dsize]; lia. Qed.
+
+Lemma flat_map_rev_perm (l : list dict) : Permutation (flat_map bindings (rev l)) (flat_map bindings l).
+Proof.
+  induction l as [|c t IH]; cbn [rev flat_map]; [constructor|].
+  rewrite flat_map_app. cbn [flat_map]. rewrite app_nil_r.
+  etransitivity; [apply Permutation_app_comm|]. now apply Permutation_app_head.
+Qed.
+
+(* the worklist walk of `entries` terminates and collects exactly the stored pairs *)
+Lemma entries_ok fuel : forall wl acc, (wsize wl < fuel)%nat ->
+  exists es, entries_aux key val fuel wl acc = Some es /\ Permutation es (flat_map bindings wl ++ acc).
+Proof.
+  induction fuel as [|fuel IH]; intros wl acc Hfuel; [lia|].
+  destruct wl as [|node rest]; cbn [entries_aux].
+  - exists acc. split; [reflexivity|]. apply Permutation_refl.
+  - cbn [wsize] in Hfuel. pose proof (dsize_pos node) as Hpos.
+    destruct node as [|h k v|h es0|bm cs].
+    + destruct (IH rest acc) as (es & He & Hp); [lia|]. exists es. split; [exact He|exact Hp].
+    + destruct (IH rest ((k, v) :: acc)) as (es & He & Hp); [lia|]. exists es. split; [exact He|].
+      cbn [flat_map bindings app]. etransitivity; [exact Hp|]. symmetry. apply Permutation_middle.
+    + destruct (IH rest (revcat es0 acc)) as (es & He & Hp); [lia|]. exists es. split; [exact He|].
+      rewrite revcat_spec in Hp. cbn [flat_map bindings]. etransitivity; [exact Hp|].
+      rewrite <- app_assoc. rewrite !app_assoc. apply Permutation_app_tail.
+      etransitivity; [apply Permutation_app_comm|]. apply Permutation_app_tail. symmetry. apply Permutation_rev.
+    + rewrite dsize_node in Hfuel.
+      destruct (IH (revcat cs rest) acc) as (es & He & Hp).
+      { rewrite revcat_spec, wsize_app, wsize_rev. lia. }
+      exists es. split; [exact He|]. rewrite revcat_spec, flat_map_app in Hp.
+      cbn [flat_map]. rewrite bindings_node. etransitivity; [exact Hp|].
+      apply Permutation_app_tail. apply Permutation_app_tail. apply flat_map_rev_perm.
+Qed.
+
+Theorem entries_correct d : Inv d ->
+  exists es, dentries d = Some es /\ Permutation es (bindings d) /\ NoDup (map fst es) /\
+             forall k v, In (k, v) es <-> abs d k = Some v.
+Proof.
+  intros HI. destruct (entries_ok (S (dsize key val d)) [d] []) as (es & He & Hp).
+  { cbn [wsize]. lia. }
+  cbn [flat_map] in Hp. rewrite !app_nil_r in Hp.
+  exists es. split; [exact He|]. split; [exact Hp|].
+  pose proof (Inv_nodup d HI) as Hnd. split.
+  - eapply Permutation_NoDup; [|exact Hnd]. apply Permutation_map. now symmetry.
+  - intros k v. unfold abs. rewrite (assoc_in _ _ _ Hnd). split; intros H.
+    + eapply Permutation_in; [exact Hp|exact H].
+    + eapply Permutation_in; [symmetry; exact Hp|exact H].
+Qed.
+
+Theorem count_correct d : Inv d -> dcount d = Some (Z.of_nat (length (bindings d))).
+Proof.
+  intros HI. destruct (entries_correct d HI) as (es & He & Hp & _). unfold d_count. rewrite He.
+  rewrite length_acc_spec, (Permutation_length Hp). reflexivity.
+Qed.
+
+Theorem keys_correct d : Inv d ->
+  exists ks, dkeys d = Some ks /\ Permutation ks (map fst (bindings d)) /\ NoDup ks.
+Proof.
+  intros HI. destruct (entries_correct d HI) as (es & He & Hp & Hnd & _). unfold d_keys. rewrite He.
+  eexists. split; [reflexivity|]. rewrite map_acc_spec. cbn [rev app].
+  split; [now apply Permutation_map|exact Hnd].
+Qed.
+
+Theorem values_correct d : Inv d ->
+  exists vs, dvalues d = Some vs /\ Permutation vs (map snd (bindings d)).
+Proof.
+  intros HI. destruct (entries_correct d HI) as (es & He & Hp & _). unfold d_values. rewrite He.
+  eexists. split; [reflexivity|]. rewrite map_acc_spec. cbn [rev app]. now apply Permutation_map.
+Qed.
+
+(* ---------------------------------------------------------------- from, merge *)
+
+Definition upd_pair (m : key -> option val) (p : entry) : key -> option val := upd m (fst p) (snd p).
+
+Lemma fold_upd_ext ps : forall m1 m2, (forall k, m1 k = m2 k) ->
+  forall k, fold_left upd_pair ps m1 k = fold_left upd_pair ps m2 k.
+Proof.
+  induction ps as [|p t IH]; intros m1 m2 Hm k; cbn [fold_left]; [apply Hm|].
+  apply IH. intros k'. unfold upd_pair, upd. now rewrite Hm.
+Qed.
+
+Lemma from_ok ps : forall d, Inv d ->
+  exists d', from_aux key val key_eqb hash d ps = Some d' /\ Inv d' /\
+             forall k, abs d' k = fold_left upd_pair ps (abs d) k.
+Proof.
+  induction ps as [|[k v] t IH]; intros d HI; cbn [from_aux].
+  - exists d. split; [reflexivity|]. split; [exact HI|]. reflexivity.
+  - destruct (put_correct d k v HI) as (d1 & Hput & HI1 & Habs).
+    unfold d_put in Hput. rewrite Hput.
+    destruct (IH d1 HI1) as (d' & Hfrom & HI' & Habs').
+    exists d'. split; [exact Hfrom|]. split; [exact HI'|].
+    intros k0. rewrite Habs'. cbn [fold_left]. apply fold_upd_ext. intros k1. apply Habs.
+Qed.
+
+(* from: later pairs win *)
+Theorem from_correct ps :
+  exists d', dfrom ps = Some d' /\ Inv d' /\
+             forall k, abs d' k = fold_left upd_pair ps (fun _ => None) k.
+Proof.
+  destruct (from_ok ps Empty Inv_empty) as (d' & H1 & H2 & H3). exists d'. split; [exact H1|]. split; [exact H2|].
+  intros k. rewrite H3. apply fold_upd_ext. intros k'. reflexivity.
+Qed.
+
+Lemma fold_upd_nodup es : forall m k, NoDup (map fst es) ->
+  fold_left upd_pair es m k = match assoc es k with Some v => Some v | None => m k end.
+Proof.
+  induction es as [|[k0 v0] t IH]; intros m k Hnd; cbn [fold_left]; [reflexivity|].
+  cbn [map fst] in Hnd. inversion Hnd as [|x l Hnotin Hnd']; subst.
+  rewrite (IH _ _ Hnd'). unfold assoc. cbn [bucket_get]. fold (assoc t k).
+  destruct (key_eqb k0 k) eqn:E.
+  - apply key_eqb_spec in E. subst k0. rewrite (assoc_none t k Hnotin).
+    unfold upd_pair, upd. cbn [fst snd]. now rewrite key_eqb_refl.
+  - destruct (assoc t k); [reflexivity|]. unfold upd_pair, upd. cbn [fst snd].
+    apply key_eqb_false in E. replace (key_eqb k k0) with false; [reflexivity|].
+    symmetry. apply key_eqb_false. congruence.
+Qed.
+
+(* merge: b's values win on conflict *)
+Theorem merge_correct a b : Inv a -> Inv b ->
+  exists d', dmerge a b = Some d' /\ Inv d' /\
+             forall k, abs d' k = match abs b k with Some v => Some v | None => abs a k end.
+Proof.
+  intros Ha Hb. destruct (entries_correct b Hb) as (es & He & Hp & Hnd & Hin).
+  unfold d_merge. rewrite He.
+  destruct (from_ok es a Ha) as (d' & Hfrom & HI' & Habs).
+  exists d'. split; [exact Hfrom|]. split; [exact HI'|].
+  intros k. rewrite Habs, (fold_upd_nodup es _ _ Hnd).
+  replace (assoc es k) with (abs b k); [reflexivity|].
+  unfold abs. apply assoc_ext; [now apply Inv_nodup|exact Hnd|].
+  intros e. split; intros H; [eapply Permutation_in; [symmetry; exact Hp|exact H]|eapply Permutation_in; [exact Hp|exact H]].
+Qed.
+
+(* children count = popcount of the bitmap, at every Node of a well-formed dict *)
+Lemma inv_popcount n lvl bm cs : inv n lvl (Node bm cs) -> Z.of_nat (length cs) = popcount bm.
+Proof.
+  destruct n; [cbn [inv]; tauto|]. intros H. apply inv_node in H. destruct H as [[Hbm HF] _].
+  rewrite popcount_slots by assumption. f_equal. symmetry. apply (Forall2_len _ _ _ HF).
+Qed.
+
 End Proofs.
